@@ -152,13 +152,13 @@ def build_stream_validator(fns):
 def replay(model, fnd, prop):
     env = base_env()
     env["CARGO_TARGET_DIR"] = os.path.join(BUILD, "replay_target")
-    rc, out = sh(["cargo", "test", "--offline", "--test", "c08_boundaries_section_alloc"], cwd=os.path.join(VERIF, "replay"), env=env, timeout=2400,
+    rc, out = sh(["cargo", "test", "--offline", "--test", "c08_boundaries_section_alloc", "--", "--test-threads=1"], cwd=os.path.join(VERIF, "replay"), env=env, timeout=2400,
                  log=os.path.join(LOGS, "replay_c08.log"))
     path = os.path.join(VERIF, "replay", "tests", "c08_boundaries_section_alloc.rs")
     if "test result: FAILED" in out:
         m = re.search(r"C08 violated: [^\n]*", out)
         return True, path, m.group(0)[:200] if m else ("native replay fails: " + (re.search(r"panicked at [^\n]*\n[^\n]*", out).group(0).replace("\n", " ")[:200] if re.search(r"panicked at [^\n]*\n[^\n]*", out) else "test failed"))
-    if "test result: ok. 2 passed" in out:
+    if re.search(r"test result: ok. [1-9]\d* passed", out):
         return False, path, "native replay passes: inflated counts / offsets are rejected without a panic or a large allocation"
     return None, path, "native replay inconclusive (rc=%s)" % rc
 
@@ -184,5 +184,8 @@ SMT = [Q("c08_footer_accept", "a footer is accepted only with current versions",
        Q("c08_footer_parsers", "footer parsers: no overflow panic, bounded allocation, on arbitrary field values", "cas_object", build_parsers,
          functions=["cas_object::cas_object_format::CasObjectInfoV1::{deserialize, deserialize_only_boundaries_section}", "CasObjectInfoV0::deserialize_v0",
                     "CasObject::get_info_length", "prealloc_num_chunks"], bounds="loops entered at most once", replay=replay, timeout=600)]
+# both validators must accept every valid xorb: the footer parsers read exactly the declared counts (same obligation as under C07)
+from props import c07 as _c07
+SMT += [q for q in _c07.SMT if q.name == "c07_footer_read_loops"]
 _st = ["alloc::fmt::format", "core::fmt::write", "std::backtrace::Backtrace::capture"]
 KANI = []
